@@ -1,7 +1,7 @@
 // C02: evaluation returns the value of the stored piecewise polynomial.
 #include "lib.h"
 using namespace vf;
-using S = QP;
+using S = vf::DefaultScalar;
 
 static std::vector<mpq_class> probe_points(const std::vector<mpq_class> &g, Win w) {
   std::vector<mpq_class> p;
